@@ -229,7 +229,7 @@ Fixpoint sx_expr (e : expr) : sx :=
   match e with
   | Tok a i t => SL [SY "T"; sx_attrs a; ign i; sx_tkind t]
   | Nary a i k es => SL [SY "N"; sx_attrs a; ign i;
-                         SY (match k with NAnd => "and" | NMatchFirst => "mf" | NOr => "or" | NEach => "each" end);
+                         SY (match k with NAnd => "and" | NMatchFirst => "mf" | NOr => "or" | NEach _ => "each" end);
                          SL (map sx_expr es)]
   | Enh a i k c => SL [SY "E"; sx_attrs a; ign i; sx_ekind k; sx_expr c]
   | Rep a i z b ne => SL [SY "R"; sx_attrs a; ign i; sx_b z; sx_expr b; match ne with Some n => sx_expr n | None => SY "N" end]
